@@ -383,6 +383,9 @@ pub fn judge(case: &Case) -> Verdict {
         for k in s0.file_writes..s1.file_writes.min(s0.file_writes + 6) {
             plans.push(Fault::FileWrite { at: k, err: ErrKind::Enospc });
         }
+        for k in s0.file_reads..s1.file_reads.min(s0.file_reads + 6) {
+            plans.push(Fault::FileRead { at: k, err: ErrKind::Eio });
+        }
         for plan in plans {
             let mut cfg = case.cfg.clone();
             cfg.faults = vec![plan.clone()];
